@@ -330,10 +330,37 @@ func (e *Expr) evalBool(env map[string]bool) bool {
 
 // ---------------------------------------------------------------------------
 // OPL rendering
+//
+// The renderer is the trusted base of C10/C11: it emits only text that is
+// valid TypeScript against the keto namespace type library and that uses
+// spellings documented for OPL (spec, examples and parser tests of the
+// repository). Canonical spelling (R == nil): import line, `T[]` / `(A | B)[]`,
+// dot access, `ctx: Context`, `: boolean`, `(p) =>`, trailing comma after every
+// permission, parentheses only where TypeScript precedence (! > && > ||) needs
+// them plus around nested same-operator groups.
+//
+// With R != nil every optional spelling ("feature") is decided by a coin that
+// is a pure function of (seed drawn once from R, feature name, ordinal of the
+// decision within that feature). Disabling one feature therefore does not
+// change the decisions of the others, which is what the C10 shrinker needs:
+//   Off[f]    feature f never fires
+//   Force     (non-nil) exactly the listed features fire, always
+//   Used      how often each feature fired in this rendering
+//   MaxNest   maximal nesting of "(" and "!" inside one permission body,
+//             counted as the parser counts it (limits.go)
 
 type renderStyle struct {
 	FullParens bool       // parenthesise every composite operand (engine tests)
 	R          *rand.Rand // nil: canonical spelling; else syntactic variants
+
+	Off     map[string]bool
+	Force   map[string]bool
+	Used    map[string]int
+	MaxNest int
+
+	seeded bool
+	seed   uint64
+	cnt    map[string]uint64
 }
 
 func isIdent(s string) bool {
@@ -355,47 +382,135 @@ func isIdent(s string) bool {
 	return true
 }
 
-func (st *renderStyle) coin(p float64) bool { return st.R != nil && st.R.Float64() < p }
+func fnv64(s string) uint64 {
+	h := uint64(14695981039346656037)
+	for i := 0; i < len(s); i++ {
+		h ^= uint64(s[i])
+		h *= 1099511628211
+	}
+	return h
+}
 
-func (st *renderStyle) quote(s string) string {
-	if st.coin(0.5) {
+// draw returns the next pseudo-random number of feature f's own stream.
+func (st *renderStyle) draw(f string) uint64 {
+	if !st.seeded {
+		st.seeded = true
+		if st.R != nil {
+			st.seed = st.R.Uint64()
+		}
+	}
+	if st.cnt == nil {
+		st.cnt = map[string]uint64{}
+	}
+	n := st.cnt[f]
+	st.cnt[f] = n + 1
+	return splitmix(st.seed ^ fnv64(f) ^ splitmix(n))
+}
+
+// random reports whether syntactic variants are drawn (R given, or a style
+// re-created from a known seed by reseeded()).
+func (st *renderStyle) random() bool { return st.R != nil || st.seeded }
+
+// reseeded returns a fresh style that repeats this style's decisions (same
+// seed) with the given features switched off.
+func (st *renderStyle) reseeded(off map[string]bool) *renderStyle {
+	st.draw("reseed") // make sure the seed is drawn
+	return &renderStyle{FullParens: st.FullParens, seeded: true, seed: st.seed, Off: off}
+}
+
+func (st *renderStyle) note(f string) {
+	if st.Used == nil {
+		st.Used = map[string]int{}
+	}
+	st.Used[f]++
+}
+
+// coin decides whether optional spelling f is used at this site.
+func (st *renderStyle) coin(f string, p float64) bool {
+	if st.Force != nil {
+		if st.Force[f] {
+			st.note(f)
+			return true
+		}
+		return false
+	}
+	if !st.random() {
+		return false
+	}
+	v := st.draw(f)
+	if st.Off[f] {
+		return false
+	}
+	if float64(v>>11)/float64(1<<53) < p {
+		st.note(f)
+		return true
+	}
+	return false
+}
+
+// pickN chooses among n alternatives of feature group f (0 = canonical).
+func (st *renderStyle) pickN(f string, n int) int {
+	if !st.random() || st.Force != nil {
+		return 0
+	}
+	return int(st.draw(f) % uint64(n))
+}
+
+func (st *renderStyle) quote(f string, s string) string {
+	if st.coin(f+"-single-quote", 0.5) {
 		return "'" + s + "'"
 	}
 	return "\"" + s + "\""
 }
 
+var wsKinds = []struct{ name, text string }{
+	{"ws-space", " "}, {"ws-newline", "\n"}, {"ws-block-comment", " /* c */ "}, {"ws-line-comment", " // lc\n"},
+	{"ws-tab", "\t"}, {"ws-doc-comment", "/** doc */"},
+}
+
+// ws: optional white space / comment between two tokens.
 func (st *renderStyle) ws() string {
-	if st.R == nil {
+	if st.Force != nil {
+		for _, k := range wsKinds {
+			if st.Force[k.name] {
+				st.note(k.name)
+				return k.text
+			}
+		}
 		return ""
 	}
-	switch st.R.IntN(12) {
-	case 0:
-		return " "
-	case 1:
-		return "\n"
-	case 2:
-		return " /* c */ "
-	case 3:
-		return " // lc\n"
-	case 4:
-		return "\t"
-	case 5:
-		return "/** doc */"
+	if !st.random() {
+		return ""
+	}
+	k := int(st.draw("ws") % 12)
+	if k < len(wsKinds) && !st.Off[wsKinds[k].name] {
+		st.note(wsKinds[k].name)
+		return wsKinds[k].text
 	}
 	return ""
 }
 
+// wsInline: like ws but never contains a line terminator (TypeScript forbids
+// one between the parameters of an arrow function and "=>").
+func (st *renderStyle) wsInline() string {
+	s := st.ws()
+	if strings.Contains(s, "\n") {
+		return " "
+	}
+	return s
+}
+
 func (st *renderStyle) propName(s string) string {
-	if !isIdent(s) || st.coin(0.25) {
-		return st.quote(s)
+	if !isIdent(s) || st.coin("quoted-name", 0.25) {
+		return st.quote("quoted-name", s)
 	}
 	return s
 }
 
 // access renders ".name" or "[\"name\"]"
 func (st *renderStyle) access(s string) string {
-	if !isIdent(s) || st.coin(0.3) {
-		return "[" + st.quote(s) + "]"
+	if !isIdent(s) || st.coin("bracket-access", 0.3) {
+		return "[" + st.quote("bracket-access", s) + "]"
 	}
 	return "." + s
 }
@@ -404,22 +519,23 @@ func (st *renderStyle) typeRef(t TypeRef) string {
 	if t.Rel == "" {
 		return t.NS
 	}
-	return "SubjectSet<" + st.ws() + t.NS + st.ws() + "," + st.ws() + st.quote(t.Rel) + st.ws() + ">"
+	return "SubjectSet<" + st.ws() + t.NS + st.ws() + "," + st.ws() + st.quote("subjectset", t.Rel) + st.ws() + ">"
 }
 
-func (st *renderStyle) types(ts []TypeRef) string {
+// types renders the array type of a relation; generic reports the Array<...> spelling.
+func (st *renderStyle) types(ts []TypeRef) (text string, generic bool) {
 	var parts []string
 	for _, t := range ts {
 		parts = append(parts, st.typeRef(t))
 	}
 	u := strings.Join(parts, " | ")
-	if st.coin(0.35) {
-		return "Array<" + u + ">"
+	if st.coin("type-array-generic", 0.35) {
+		return "Array<" + u + ">", true
 	}
-	if len(ts) == 1 && !st.coin(0.2) {
-		return u + "[]"
+	if len(ts) == 1 && !st.coin("type-parens-single", 0.2) {
+		return u + "[]", false
 	}
-	return "(" + u + ")[]"
+	return "(" + u + ")[]", false
 }
 
 func prec(op string) int {
@@ -434,6 +550,12 @@ func prec(op string) int {
 	return 4
 }
 
+func (st *renderStyle) nest(d int) {
+	if d > st.MaxNest {
+		st.MaxNest = d
+	}
+}
+
 func (st *renderStyle) leaf(e *Expr) string {
 	switch e.Op {
 	case "csr":
@@ -443,54 +565,65 @@ func (st *renderStyle) leaf(e *Expr) string {
 		return "this" + st.ws() + ".related" + st.access(e.Rel) + ".includes(ctx.subject)"
 	case "ttu":
 		arg := "p"
-		if st.R != nil {
-			arg = []string{"p", "x", "parent", "_o"}[st.R.IntN(4)]
+		if k := st.pickN("lambda-arg-name", 4); k > 0 && !st.Off["lambda-arg-name"] {
+			arg = []string{"p", "x", "parent", "_o"}[k]
+			st.note("lambda-arg-name")
 		}
-		lhs := arg
-		if st.coin(0.5) || st.R == nil {
-			lhs = "(" + arg + ")"
+		lhs := "(" + arg + ")"
+		if st.coin("lambda-no-parens", 0.5) {
+			lhs = arg
 		}
 		body := ""
 		if e.ViaPermits {
 			body = arg + ".permits" + st.access(e.Comp) + "(ctx)"
+			if st.coin("comma-after-permits-lambda", 0.05) {
+				body += ","
+			}
 		} else {
-			body = arg + ".related" + st.access(e.Comp) + ".includes(ctx.subject" + st.optComma() + ")"
+			body = arg + ".related" + st.access(e.Comp) + ".includes(ctx.subject"
+			if st.coin("comma-after-ctx-subject-in-traverse", 0.15) {
+				body += ","
+			}
+			body += ")"
+			if st.coin("comma-after-includes-lambda", 0.15) {
+				body += ","
+			}
 		}
-		return "this.related" + st.access(e.Rel) + ".traverse(" + lhs + st.ws() + "=>" + st.ws() + body + st.optComma() + ")"
+		return "this.related" + st.access(e.Rel) + ".traverse(" + lhs + st.wsInline() + "=>" + st.ws() + body + ")"
 	}
 	panic("not a leaf")
 }
 
-func (st *renderStyle) optComma() string {
-	if st.coin(0.15) {
-		return ","
-	}
-	return ""
-}
-
-// expr renders e; parent precedence decides on parentheses.
-func (st *renderStyle) expr(e *Expr, parentPrec int) string {
+// expr renders e at nesting depth d (number of enclosing "(" and "!").
+func (st *renderStyle) expr(e *Expr, d int) string {
 	switch e.Op {
 	case "csr", "ttu":
-		s := st.leaf(e)
-		if st.coin(0.08) {
-			return "(" + s + ")"
+		if st.coin("redundant-parens-leaf", 0.08) {
+			st.nest(d + 1)
+			return "(" + st.leaf(e) + ")"
 		}
-		return s
+		return st.leaf(e)
 	case "not":
 		k := e.Kids[0]
-		var inner string
-		if k.Op == "csr" || k.Op == "ttu" {
-			inner = st.leaf(k)
-			if st.coin(0.2) {
-				inner = "(" + inner + ")"
+		st.nest(d + 1)
+		switch {
+		case k.Op == "csr" || k.Op == "ttu":
+			if st.coin("parens-after-not-leaf", 0.2) {
+				st.nest(d + 2)
+				return "!(" + st.leaf(k) + ")"
 			}
-		} else if k.Op == "not" {
-			inner = st.expr(k, 3)
-		} else {
-			inner = "(" + st.expr(k, 0) + ")"
+			return "!" + st.leaf(k)
+		case k.Op == "not" && !st.FullParens:
+			// TypeScript: `!!x` needs no parentheses
+			if st.coin("parens-between-nots", 0.3) {
+				st.nest(d + 2)
+				return "!(" + st.expr(k, d+2) + ")"
+			}
+			return "!" + st.expr(k, d+1)
+		default:
+			st.nest(d + 2)
+			return "!(" + st.expr(k, d+2) + ")"
 		}
-		return "!" + inner
 	}
 	opTok := " || "
 	if e.Op == "and" {
@@ -498,26 +631,35 @@ func (st *renderStyle) expr(e *Expr, parentPrec int) string {
 	}
 	var parts []string
 	for _, k := range e.Kids {
-		need := prec(k.Op) <= prec(e.Op) && (k.Op == "or" || k.Op == "and")
-		if k.Op == e.Op {
-			// same operator nested: keep grouping explicit so the tree is preserved
+		composite := k.Op == "or" || k.Op == "and"
+		need := composite && prec(k.Op) < prec(e.Op)
+		if composite && k.Op == e.Op {
+			// same operator nested: canonical keeps the grouping explicit
+			need = !st.coin("no-parens-same-op", 0.5)
+		}
+		if st.FullParens && composite {
 			need = true
 		}
-		if st.FullParens && (k.Op == "or" || k.Op == "and") {
+		if composite && !need && st.coin("redundant-parens-group", 0.15) {
 			need = true
 		}
-		s := st.expr(k, prec(e.Op))
-		if need || ((k.Op == "or" || k.Op == "and") && st.coin(0.15)) {
-			s = "(" + s + ")"
+		if need {
+			st.nest(d + 1)
+			parts = append(parts, "("+st.expr(k, d+1)+")")
+		} else {
+			parts = append(parts, st.expr(k, d))
 		}
-		parts = append(parts, s)
 	}
 	return strings.Join(parts, st.ws()+opTok+st.ws())
 }
 
 func (st *renderStyle) render(c *Cfg) string {
 	var sb strings.Builder
-	if st.coin(0.5) || st.R == nil {
+	switch {
+	case st.coin("no-import", 0.4):
+	case st.coin("import-single-quote-semicolon", 0.3):
+		sb.WriteString("import { Namespace, SubjectSet, Context } from '@ory/keto-namespace-types';\n\n")
+	default:
 		sb.WriteString("import { Namespace, SubjectSet, Context } from \"@ory/keto-namespace-types\"\n\n")
 	}
 	for _, n := range c.NS {
@@ -534,44 +676,58 @@ func (st *renderStyle) render(c *Cfg) string {
 		if len(related) > 0 {
 			sb.WriteString("  related: {\n")
 			for _, r := range related {
-				sb.WriteString("    " + st.propName(r.Name) + ":" + st.ws() + " " + st.types(r.Types))
-				if st.R != nil {
-					sb.WriteString([]string{"", ",", ";", "\n"}[st.R.IntN(4)])
+				ty, generic := st.types(r.Types)
+				sb.WriteString("    " + st.propName(r.Name) + ":" + st.ws() + " " + ty)
+				// member separators of a TypeScript type literal: newline, "," or ";"
+				sfx := ""
+				if generic {
+					sfx = "-after-generic"
+				}
+				switch {
+				case st.coin("rel-sep-comma"+sfx, 0.1):
+					sb.WriteString(",")
+				case st.coin("rel-sep-semicolon"+sfx, 0.2):
+					sb.WriteString(";")
 				}
 				sb.WriteString("\n")
 			}
-			sb.WriteString("  }" + st.maybe(";") + "\n")
+			sb.WriteString("  }")
+			if st.coin("semicolon-after-related-block", 0.3) {
+				sb.WriteString(";")
+			}
+			sb.WriteString("\n")
 		}
 		if len(permits) > 0 {
 			sb.WriteString("  permits = {\n")
 			for i, r := range permits {
-				ctxArg := "ctx"
-				if st.coin(0.5) || st.R == nil {
-					ctxArg = "ctx: Context"
+				ctxArg := "ctx: Context"
+				if st.coin("no-ctx-type", 0.5) {
+					ctxArg = "ctx"
 				}
-				ret := ""
-				if st.coin(0.5) || st.R == nil {
-					ret = ": boolean"
+				ret := ": boolean"
+				if st.coin("no-return-type", 0.5) {
+					ret = ""
 				}
 				sb.WriteString("    " + st.propName(r.Name) + ": (" + ctxArg + ")" + ret + " =>" + st.ws() + "\n      ")
 				sb.WriteString(st.expr(r.Rewrite, 0))
-				if i < len(permits)-1 || st.coin(0.5) || st.R == nil {
+				if i < len(permits)-1 || !st.coin("no-trailing-comma-last-permission", 0.5) {
 					sb.WriteString(",")
 				}
 				sb.WriteString("\n")
 			}
-			sb.WriteString("  }" + st.maybe(";") + "\n")
+			sb.WriteString("  }")
+			if st.coin("semicolon-after-permits-block", 0.3) {
+				sb.WriteString(";")
+			}
+			sb.WriteString("\n")
 		}
 		sb.WriteString("}\n")
 	}
-	return sb.String()
-}
-
-func (st *renderStyle) maybe(s string) string {
-	if st.coin(0.3) {
-		return s
+	out := sb.String()
+	if st.coin("crlf", 0.1) {
+		out = strings.ReplaceAll(out, "\n", "\r\n")
 	}
-	return ""
+	return out
 }
 
 // ---------------------------------------------------------------------------
